@@ -303,9 +303,9 @@ def check_line_breaks(ctx, f: FuncInfo, rule="ORD-br"):
   idx = lp.target.elts[0].id if isinstance(lp.target, ast.Tuple) else None
   first = lp.body[0]
   ok = isinstance(first, ast.If) and unparse(first.test).replace(" ", "") in (f"{idx}>0", f"0<{idx}", f"{idx}!=0", f"{idx}>=1") and \
-    any(_is_push(c, push_wrappers(ctx.ix, f.cls)) and "Br(" in unparse(c) for c in own_nodes(first)) and not first.orelse
+    any(_is_push(c, push_wrappers(ctx.ix, f.cls)) and "Br(" in unparse(c) and unparse(c.func.value) in ("self.parent", "self") for c in own_nodes(first)) and not first.orelse
   ctx.check(ok, rule, f"{f.qualname}|a line break precedes every line but the first", ctx.where(f.module, lp),
-            f"loop body starts with `if {idx} > 0: push Br`", "the per-line loop no longer starts by pushing a Br for every line after the first: a line break can be skipped (e.g. before an empty fragment or a tag)")
+            f"loop body starts with `if {idx} > 0: push Br at the insertion point`", "the per-line loop no longer starts by pushing a Br at the insertion point (self.parent) for every line after the first: a line break can be skipped or land outside the open span")
   # the split is on the newline character
   sp = [c for c in own_nodes(f.node) if isinstance(c, ast.Call) and isinstance(c.func, ast.Attribute) and c.func.attr == "split"]
   ctx.check(any(c.args and isinstance(c.args[0], ast.Constant) and c.args[0].value == "\n" for c in sp), rule, f"{f.qualname}|lines are split at newline", ctx.where(f.module, f.node),
@@ -589,6 +589,26 @@ def _global_container(ix: Index, f: FuncInfo, expr) -> typing.Optional[str]:
   return None
 
 
+def check_no_memo_decorators(ctx, funcs: typing.Iterable[FuncInfo], rule="STATE-global", allowed: typing.Optional[typing.Dict[str, str]] = None):
+  """functools.lru_cache / cache keep results for the life of the process, keyed by argument
+  identity or equality: results go stale when an argument (a document, an element) is modified, and
+  value-equal arguments share an entry."""
+  allowed = allowed or {}
+  n = 0
+  for f in funcs:
+    for d in f.node.decorator_list:
+      t = unparse(d.func if isinstance(d, ast.Call) else d)
+      if t.split(".")[-1] in ("lru_cache", "cache", "cached_property"):
+        n += 1
+        ctx.unit(f.module)
+        if f.qualname in allowed:
+          ctx.ok(rule, f"{f.qualname}|@{t}|allowed", ctx.where(f.module, d), "tabled: " + allowed[f.qualname])
+        else:
+          ctx.bad(rule, f"{f.qualname}|@{t}", ctx.where(f.module, d), f"`@{t}` on {f.short} memoises results for the life of the process: later calls do not see changes made to the arguments' objects, "
+                  "and the result of one conversion depends on earlier ones")
+  return n
+
+
 def check_no_process_state(ctx, funcs: typing.Iterable[FuncInfo], rule="STATE-global", allowed: typing.Optional[typing.Dict[str, str]] = None):
   """No function rebinds module- or class-level state: no `global` statement, no assignment to an
   attribute of a class / module / module-level instance (other than `self`), and no mutation of a
@@ -808,4 +828,35 @@ def check_stateless_instances(ctx, classes, rule="STATE-instance", setup=("__ini
           n += 1
           ctx.unit(c.module)
           ctx.bad(rule, f"{m.qualname}|{short(st, 50)}", ctx.where(c.module, st), f"{m.short} {what}: the object is applied to many documents, and what it remembers from one changes the result for the next")
+  return n
+
+
+
+def check_fresh_per_iteration(ctx, funcs: typing.Iterable[FuncInfo], rule="FRESH"):
+  """`container.push_child(x)` inside a loop, where x is a model element constructed *outside* that
+  loop: the second iteration pushes an element that already has a parent, which push_child refuses
+  with RuntimeError (or, for registries, overwrites the previous entry)."""
+  n = 0
+  for f in funcs:
+    ctor = {}
+    for st in own_nodes(f.node):
+      if isinstance(st, ast.Assign) and len(st.targets) == 1 and isinstance(st.targets[0], ast.Name) and isinstance(st.value, ast.Call):
+        fn = unparse(st.value.func).split(".")[-1]
+        if fn[:1].isupper():
+          ctor.setdefault(st.targets[0].id, []).append(st)
+    for c in own_nodes(f.node):
+      if isinstance(c, ast.Call) and isinstance(c.func, ast.Attribute) and c.func.attr == "push_child" and len(c.args) == 1 and isinstance(c.args[0], ast.Name) and c.args[0].id in ctor:
+        v = c.args[0].id
+        # innermost loop around the push
+        lp = parent(c)
+        while lp is not None and lp is not f.node and not isinstance(lp, (ast.For, ast.While)):
+          lp = parent(lp)
+        if lp is None or lp is f.node:
+          continue
+        n += 1
+        ctx.unit(f.module)
+        inside = any(any(x is st for x in ast.walk(lp)) for st in ctor[v])
+        # pushing INTO a container created outside is fine; the pushed object itself must be fresh
+        ctx.check(inside, rule, f"{f.qualname}|{short(c, 50)}", ctx.where(f.module, c), f"`{v}` is constructed inside the loop",
+                  f"`{short(c, 60)}` runs once per iteration of `{short(lp, 40)}` but `{v}` is constructed once, outside the loop: the second iteration pushes an element that already has a parent (RuntimeError)")
   return n
